@@ -40,7 +40,7 @@ def blobWrite (pw : PW) (data : Bytes) : Outcome (PW × BlobRef) := do
   let endOff := pw.physicalPosition
   let (pw, ok) := pw.physicalSeek start
   if !ok then .err "seek to blob header failed" else
-  let pw ← pw.writeAll (blobHeaderBytes data.length)
+  let pw ← pw.writeAll (blobHeaderBytes ((16 + data.length + 3) / 4 * 4))
   let (pw, ok) := pw.physicalSeek endOff
   if !ok then .err "seek behind blob failed" else
   let pw ← pw.align
@@ -62,28 +62,30 @@ structure PcW where
 
 def fltLt (a b : UInt64) : Bool := Float.ofBits a < Float.ofBits b
 
-/-- `update_min` on f64: replace when `current > value` -/
-def updMinF (v : UInt64) : Option UInt64 → Option UInt64
-  | some c => if fltLt v c then some v else some c
+/-- `update_min` for any strict order `lt`: replace when `current > value` -/
+def updMinG {α : Type} (lt : α → α → Bool) (v : α) : Option α → Option α
+  | some c => if lt v c then some v else some c
   | none => some v
 
-def updMaxF (v : UInt64) : Option UInt64 → Option UInt64
-  | some c => if fltLt c v then some v else some c
+/-- `update_max`: replace when `current < value` -/
+def updMaxG {α : Type} (lt : α → α → Bool) (v : α) : Option α → Option α
+  | some c => if lt c v then some v else some c
   | none => some v
 
-def updMinI (v : Int) : Option Int → Option Int
-  | some c => if c > v then some v else some c
-  | none => some v
+/-- on `f64` (IEEE comparison of the bit patterns; comparisons with NaN are false) -/
+def updMinF (v : UInt64) (cur : Option UInt64) : Option UInt64 := updMinG fltLt v cur
+def updMaxF (v : UInt64) (cur : Option UInt64) : Option UInt64 := updMaxG fltLt v cur
 
-def updMaxI (v : Int) : Option Int → Option Int
-  | some c => if c < v then some v else some c
-  | none => some v
+/-- on `i64` -/
+def updMinI (v : Int) (cur : Option Int) : Option Int := updMinG (fun a b => decide (a < b)) v cur
+def updMaxI (v : Int) (cur : Option Int) : Option Int := updMaxG (fun a b => decide (a < b)) v cur
 
 def PcW.new (pw : PW) (exts : List (String × String)) (guid : String) (proto : Prototype) :
     Outcome (PW × PcW) := do
   if !validateExtensions proto exts then .err "extension namespace or name not accepted" else
   if !validatePrototype proto then .err "prototype violates the documented rules" else
-  let maxPoints ← maxPacketPoints proto
+  let maxPoints := maxPacketPoints proto
+  if maxPoints = 0 then .err "Prototype is too big, a single point does not fit into a data packet" else
   let sectionOffset := pw.physicalPosition
   let hdr0 : CvHeader := ⟨32, 0, 0⟩
   let pw ← pw.writeAll hdr0.bytes
